@@ -237,3 +237,56 @@ impl Run {
         std::process::exit(0)
     }
 }
+
+// ------------------------------------------------------------------ watchdog
+
+use std::sync::OnceLock;
+static WATCH: OnceLock<Mutex<Vec<Option<(String, Instant, bool)>>>> = OnceLock::new();
+thread_local! { static SLOT: std::cell::Cell<usize> = std::cell::Cell::new(usize::MAX); }
+
+fn watch() -> &'static Mutex<Vec<Option<(String, Instant, bool)>>> {
+    WATCH.get_or_init(|| {
+        let prop = std::env::args().nth(1).unwrap_or_default().to_uppercase();
+        std::thread::spawn(move || loop {
+            std::thread::sleep(std::time::Duration::from_secs(2));
+            let g = WATCH.get().unwrap().lock().unwrap();
+            for e in g.iter().flatten() {
+                let limit = std::env::var("VERIF_CASE_TIMEOUT_S").ok().and_then(|s| s.parse().ok()).unwrap_or(60);
+                if e.1.elapsed().as_secs() > limit {
+                    if e.2 {
+                        // the model terminated on this case, the implementation did not: divergence
+                        let vd = verif_dir().join("replays").join(&prop);
+                        std::fs::create_dir_all(&vd).ok();
+                        let p = vd.join(format!("divergence_{:016x}.json", h64(&e.0)));
+                        std::fs::write(&p, serde_json::to_string_pretty(&json!({"property": prop, "key": e.0, "detail": {"what": "the implementation did not terminate within the case time limit although the reference model did"}})).unwrap()).ok();
+                        eprintln!("divergence on case: {}", e.0);
+                        println!("VIOLATION property={} replay={}", prop, p.display());
+                        std::process::exit(1);
+                    } else {
+                        eprintln!("machinery error: case did not terminate within {limit} s: {}", e.0);
+                        std::process::exit(2);
+                    }
+                }
+            }
+        });
+        Mutex::new(Vec::new())
+    })
+}
+
+/// Run `f` under the watchdog. `verdict`: a time-out is a divergence violation (the model terminated),
+/// otherwise it is a machinery error.
+pub fn watched<R>(key: impl FnOnce() -> String, verdict: bool, f: impl FnOnce() -> R) -> R {
+    let w = watch();
+    let slot = SLOT.with(|s| {
+        if s.get() == usize::MAX {
+            let mut g = w.lock().unwrap();
+            g.push(None);
+            s.set(g.len() - 1);
+        }
+        s.get()
+    });
+    w.lock().unwrap()[slot] = Some((key(), Instant::now(), verdict));
+    let r = f();
+    w.lock().unwrap()[slot] = None;
+    r
+}
